@@ -119,3 +119,183 @@ package handlers
 //@   ensures served == old(served) || served == old(served) + 1
 // a body whose length is not declared (chunked) must be capped before the request is served
 //@   at call ServeHTTP 1 assert r.Body == nil || ghost(r.Body).limited
+
+// ---- C14 / C05: the translation handler. Logging and bookkeeping helpers (trusted: they write log lines, request
+// statistics and metrics only; none of them calls the proxy engine or writes to the client).
+//@ func (a *Application) logRequestStart
+//@   property C14
+//@   trusted
+//@ func (a *Application) logRequestResult
+//@   property C14
+//@   trusted
+//@ func (a *Application) recordTranslatorMetrics
+//@   property C14
+//@   trusted
+
+//@ func (a *Application) prepareProxyContext
+//@   property C14
+//@   safety
+//@   requires a != nil && r != nil && pr != nil && pr.stats != nil
+//@   modifies ports.RequestStats.RoutingDecision
+//@   ensures res1 != nil && res1.URL == r.URL && res1.Body == r.Body && res1.ContentLength == r.ContentLength && ghost(res1.Body).remaining == old(ghost(r.Body).remaining)
+
+// Olla's own error answer on a translator route: the translator's error format when it has one
+//@ func (a *Application) writeTranslatorError
+//@   property C05 C14
+//@   safety
+//@   requires a != nil && w != nil && trans != nil && pr != nil && pr.requestLogger != nil && err != nil
+//@   modifies pr.hadError, ghost started, ghost status, ghost(w).hdr[all], gvar lastEncoded, ghost encW
+//@   ensures forall x ref :: x != w ==> ghost(x).started == old(ghost(x).started) && ghost(x).status == old(ghost(x).status)
+//@   ensures ghost(w).started && (!old(ghost(w).started) ==> ghost(w).status == statusCode) && (old(ghost(w).started) ==> ghost(w).status == old(ghost(w).status))
+
+// passthrough: the engine gets exactly the endpoint list it was handed here, the client's own bytes, the native path
+//@ func (a *Application) executePassthroughRequest
+//@   property C14
+//@   safety
+//@   requires a != nil && a.proxyService != nil && w != nil && r != nil && r.URL != nil && trans != nil && pr != nil && pr.requestLogger != nil && pr.stats != nil
+//@   modifies *
+//@   ensures pxCalls == old(pxCalls) || pxCalls == old(pxCalls) + 1
+//@   ensures pxCalls == old(pxCalls) + 1 ==> pxEndpoints == endpoints
+//@   ensures pxCalls == old(pxCalls) + 1 ==> pxBody == bytesContent(bodyBytes)
+//@   ensures pxCalls == old(pxCalls) + 1 ==> pxPath == ptPath
+//@   at call ProxyRequestToEndpoints 1 assert len(ghost(w).hdr["X-Olla-Mode"]) == 1 && ghost(w).hdr["X-Olla-Mode"][0] == "passthrough"
+
+// native(ty): the shipped profile for endpoint type ty declares native Anthropic support and has it enabled
+//@ spec func anthCfg(ty string) *domain.AnthropicSupportConfig = purecall("ProfileLookup.GetAnthropicSupport", "*domain.AnthropicSupportConfig", ty)
+//@ spec func native(ty string) bool = anthCfg(ty) != nil && anthCfg(ty).Enabled
+
+// passthrough is attempted only with the capable subset: every endpoint handed to the engine in passthrough mode is one
+// of the candidates and its profile declares native support; every capable candidate is offered; when passthrough is
+// not used the engine is not called here at all.
+//@ func (a *Application) tryPassthrough
+//@   property C14
+//@   safety
+//@   requires a != nil && a.proxyService != nil && w != nil && r != nil && r.URL != nil && trans != nil && pr != nil && pr.requestLogger != nil && pr.stats != nil && allNonNil(endpoints)
+//@   modifies *
+//@   loop 1 invariant forall k int :: 0 <= k && k < len(passthroughEndpoints) ==> passthroughEndpoints[k] != nil && member(passthroughEndpoints[k], endpoints) && native(passthroughEndpoints[k].Type)
+//@   loop 1 invariant forall j int :: 0 <= j && j < i$1 && native(endpoints[j].Type) ==> member(endpoints[j], passthroughEndpoints)
+//@   at call executePassthroughRequest 1 assert forall k int :: 0 <= k && k < len(passthroughEndpoints) ==> passthroughEndpoints[k] != nil && member(passthroughEndpoints[k], endpoints) && native(passthroughEndpoints[k].Type)
+//@   at call executePassthroughRequest 1 assert forall j int :: 0 <= j && j < len(endpoints) && native(endpoints[j].Type) ==> member(endpoints[j], passthroughEndpoints)
+//@   at call executePassthroughRequest 1 assert len(passthroughEndpoints) > 0
+//@   ensures !res ==> pxCalls == old(pxCalls)
+//@   ensures pxCalls == old(pxCalls) + 1 ==> res && pxBody == bytesContent(bodyBytes) && pxPath == ptPath && (forall k int :: 0 <= k && k < len(pxEndpoints) ==> member(pxEndpoints[k], endpoints))
+//@   ensures pxCalls == old(pxCalls) || pxCalls == old(pxCalls) + 1
+
+//@ func newResponseRecorder
+//@   property C14 C05
+//@   ensures res != nil && fresh(res) && res.body != nil && res.headers != nil && res.status == 200
+
+// the buffered translation path: the engine is called once, with the request as prepared by the caller
+//@ func (a *Application) executeTranslatedNonStreamingRequest
+//@   property C14 C05
+//@   replay handlers_translation_backend_status
+//@   safety
+//@   requires a != nil && a.proxyService != nil && w != nil && r != nil && r.URL != nil && trans != nil && pr != nil && pr.requestLogger != nil && pr.stats != nil
+//@   modifies *
+//@   ensures pxCalls == old(pxCalls) + 1 && pxEndpoints == endpoints && pxPath == old(r.URL.Path) && pxBody == old(ghost(r.Body).remaining)
+//@   ensures res == nil ==> ghost(w).started
+//@   at return 3 assert recorder.status < 400
+//@   at return 2 assert recorder.status >= 400 && ghost(w).started && (!old(ghost(w).started) ==> ghost(w).status == recorder.status)
+
+//@ func (a *Application) copyOllaHeaders
+//@   property C05
+//@   trusted
+//@   modifies ghost(to).hdr[all]
+//@ func (a *Application) setModelHeaderIfMissing
+//@   property C05
+//@   trusted
+//@   modifies ghost(w).hdr[all]
+//@ func (a *Application) extractAndLogBackendError
+//@   property C05
+//@   safety
+//@   requires a != nil && pr != nil && pr.requestLogger != nil && trans != nil
+
+// a backend's own error answer keeps its status on the way to the client
+//@ func (a *Application) handleNonStreamingBackendError
+//@   property C05
+//@   safety
+//@   requires a != nil && w != nil && recorder != nil && recorder.body != nil && pr != nil && pr.requestLogger != nil && trans != nil
+//@   modifies ghost started, ghost status, ghost(w).hdr[all], gvar lastEncoded, ghost encW
+//@   ensures ghost(w).started && (!old(ghost(w).started) ==> ghost(w).status == recorder.status)
+
+//@ func (a *Application) writeTranslatedSuccessResponse
+//@   property C05
+//@   safety
+//@   requires a != nil && w != nil && recorder != nil && trans != nil
+//@   modifies ghost started, ghost status, ghost(w).hdr[all]
+//@   ensures res == nil ==> ghost(w).started && (!old(ghost(w).started) ==> ghost(w).status == 200)
+
+// ---- C05, streaming translation. The engine runs in a goroutine and writes into the streaming recorder while the
+// handler waits. Sequential abstraction: from startProxyGoroutine on, everything the recorder's own methods can write
+// (status, the once) and whether the engine has answered at all (ghost started) are arbitrary.
+//@ func newStreamingResponseRecorder
+//@   property C05
+//@   ensures res != nil && fresh(res) && res.status == 200
+
+// the recorder's answered flag is set by exactly the two methods through which an engine can answer
+//@ func (r *streamingResponseRecorder) WriteHeader
+//@   property C05
+//@   safety
+//@   requires r != nil
+//@   modifies r.status, r.answered, r.closeOnce
+//@   ensures r.answered && r.status == statusCode
+//@ func (r *streamingResponseRecorder) Write
+//@   property C05
+//@   safety
+//@   requires r != nil && r.writer != nil
+//@   modifies r.answered, r.closeOnce
+//@   ensures r.answered
+//@ func (r *streamingResponseRecorder) ensureHeadersReady
+//@   property C05
+//@   trusted
+//@   modifies r.closeOnce
+
+//@ func (a *Application) startProxyGoroutine
+//@   property C05
+//@   trusted
+//@   modifies object streamRecorder, ghost(streamRecorder).started, ghost(streamRecorder).status
+//@   ensures res != nil
+
+//@ func (a *Application) handleStreamingPanic
+//@   property C05
+//@   trusted
+
+//@ func (a *Application) writeStreamingNoEndpointsError
+//@   property C05
+//@   safety
+//@   requires a != nil && w != nil && pr != nil && pr.requestLogger != nil && trans != nil
+//@   modifies ghost started, ghost status, ghost(w).hdr[all], gvar lastEncoded, ghost encW
+//@   ensures ghost(w).started && (!old(ghost(w).started) ==> ghost(w).status == 503)
+
+//@ func (a *Application) parseStreamingErrorMessage
+//@   property C05 C20
+//@   safety
+
+//@ func (a *Application) writeGenericStreamingError
+//@   property C05
+//@   safety
+//@   requires w != nil
+//@   modifies ghost started, ghost status, gvar lastEncoded, ghost encW
+//@   ensures ghost(w).started && (!old(ghost(w).started) ==> ghost(w).status == statusCode)
+
+//@ func (a *Application) handleStreamingBackendError
+//@   property C05
+//@   safety
+//@   requires a != nil && w != nil && pipeReader != nil && streamRecorder != nil && pr != nil && pr.requestLogger != nil && trans != nil
+//@   modifies ghost started, ghost status, ghost(w).hdr[all], gvar lastEncoded, ghost encW, ghost remaining
+//@   ensures ghost(w).started && (!old(ghost(w).started) ==> ghost(w).status == streamRecorder.status)
+
+//@ func (a *Application) transformStreamAndWaitForProxy
+//@   property C05
+//@   trusted
+//@   modifies ghost started, ghost status, ghost(w).hdr[all]
+
+// the streamed translation is started only after the backend has really answered (with a non-error status)
+//@ func (a *Application) executeTranslatedStreamingRequest
+//@   property C05
+//@   replay handlers_translation_stream_noanswer
+//@   safety
+//@   requires a != nil && a.proxyService != nil && w != nil && r != nil && trans != nil && pr != nil && pr.requestLogger != nil && pr.stats != nil
+//@   modifies *
+//@   at call transformStreamAndWaitForProxy 1 assume streamRecorder.answered == ghost(streamRecorder).started
+//@   at call transformStreamAndWaitForProxy 1 assert ghost(streamRecorder).started && streamRecorder.status < 400
